@@ -222,6 +222,17 @@ impl C09 {
         sh.count("roundtrips_ok", 1);
         // names: explicit + distinct names of a *parsed* system survive a further cycle
         self.name_cycle(sh, ctx, &sys2, &text);
+        // the same with the registers and memories named the way yosys does it (anonymous state line + named
+        // `uext <sort> <state> 0` line): again a parsed system with explicit names
+        if rng.chance(1, 2) {
+            let ytext = yosysify(&text);
+            if ytext != text {
+                if let Ok(Some(sys_y)) = util::catch(|| patronus::btor2::parse_str(ctx, &ytext, Some("ys"))) {
+                    sh.count("systems_with_yosys_style_state_names", 1);
+                    self.name_cycle(sh, ctx, &sys_y, &ytext);
+                }
+            }
+        }
         // the same for ordinary names that end in a word the reader uses for the names it invents:
         // the names are put into the written text, so that the system that carries them is a parsed one
         if rng.chance(1, 2) {
@@ -293,6 +304,31 @@ impl C09 {
     }
 }
 
+/// the way yosys names registers and memories: the `state` line is anonymous and a later line
+/// `<id> uext <sort> <state> 0 <name>` carries the name
+fn yosysify(text: &str) -> String {
+    let mut out = String::new();
+    let mut aliases: Vec<(String, String, String)> = vec![];
+    let mut max_id = 0u64;
+    for line in text.lines() {
+        let t: Vec<&str> = line.split_whitespace().collect();
+        if let Some(id) = t.first().and_then(|x| x.parse::<u64>().ok()) {
+            max_id = max_id.max(id);
+        }
+        if t.len() == 4 && t[1] == "state" && !t[3].starts_with(';') {
+            aliases.push((t[0].to_string(), t[2].to_string(), t[3].to_string()));
+            out.push_str(&format!("{} state {}\n", t[0], t[2]));
+        } else {
+            out.push_str(line);
+            out.push('\n');
+        }
+    }
+    for (k, (st, sort, name)) in aliases.iter().enumerate() {
+        out.push_str(&format!("{} uext {} {} 0 {}\n", max_id + 1 + k as u64, sort, st, name));
+    }
+    out
+}
+
 /// appends `sfx` to the name on every input/state/output line that has one
 fn rename_in_text(text: &str, sfx: &str) -> String {
     let mut out = String::new();
@@ -319,7 +355,7 @@ impl Check for C09 {
         "functions_compared"
     }
     fn rule(&self) -> String {
-        "mode gen: G2 systems (array states initialised by constants or by expressions over earlier states, const states, free states, states with neither init nor next, outputs aliasing states, named inner nodes, anonymous inputs, literals of every shape incl. widths 63-65 and 127-129 in a third of the systems); mode corpus: the 116 btor2 files under /repo/inputs (parse, then write, then read). Each system the writer accepts is written with btor2::serialize and read back into the same context; inputs (followed by demoted states), states, outputs, bads, constraints are matched by position and type; functions are compared by reference, else by the reference evaluator under positionally translated assignments (all assignments when <= 14 symbol bits, else 64 corner/correlated ones) and a 20-step lock-step reference simulation. For re-read systems (and for the shipped files as parsed) with explicit distinct names a further write/read cycle must keep all input/state/output names; in half of the cases the written text is additionally re-read with every name extended by a word the reader uses for its own invented names (`_state`, `_input_12`, `_bad_0`, `.c_state`, ...) and cycled again. distinct_nontrivial = distinct systems that were written and re-read.".into()
+        "mode gen: G2 systems (array states initialised by constants or by expressions over earlier states, const states, free states, states with neither init nor next, outputs aliasing states, named inner nodes, anonymous inputs, literals of every shape incl. widths 63-65 and 127-129 in a third of the systems); mode corpus: the 116 btor2 files under /repo/inputs (parse, then write, then read). Each system the writer accepts is written with btor2::serialize and read back into the same context; inputs (followed by demoted states), states, outputs, bads, constraints are matched by position and type; functions are compared by reference, else by the reference evaluator under positionally translated assignments (all assignments when <= 14 symbol bits, else 64 corner/correlated ones) and a 20-step lock-step reference simulation. For re-read systems (and for the shipped files as parsed) with explicit distinct names a further write/read cycle must keep all input/state/output names; in half of the cases the written text is additionally re-read with every name extended by a word the reader uses for its own invented names (`_state`, `_input_12`, `_bad_0`, `.c_state`, ...) and cycled again; in half of the cases also with the state names moved from the `state` lines to yosys-style alias lines (`uext <sort> <state> 0 <name>`, bit-vector and array states). distinct_nontrivial = distinct systems that were written and re-read.".into()
     }
     fn assumptions(&self) -> Vec<String> {
         vec!["init expressions only read earlier states (the writer emits init trees before the state declaration)".into(), "systems the writer rejects (array constants outside init) are counted and skipped".into()]
